@@ -246,8 +246,8 @@ func c17Gen(rng *gen.Rng, population string) *c17Hist {
 		}
 		dup := false
 		for _, q := range paths {
-			if q == p {
-				dup = true
+			if q == p || strings.HasPrefix(p, q+"/") || strings.HasPrefix(q, p+"/") {
+				dup = true // (also: a name cannot be a file and the directory of another path)
 			}
 		}
 		if !dup {
